@@ -6,6 +6,8 @@
 import VerdeModel.Lemmas.PReal
 import VerdeModel.Gen.Kernels
 import VerdeModel.Model.LinAlg
+import VerdeModel.Gen.Trend
+import VerdeModel.Lemmas.Sort
 import Mathlib.Tactic.Linarith
 import Mathlib.Tactic.Ring
 namespace Verde.C03
@@ -161,6 +163,20 @@ theorem trend_predict_eq_jac_mul (coef : List Rat) (deg : Nat) (e n : Rat) :
   congr 1
   rw [List.zipWith_map_left]
   rw [List.zipWith_comm]
+
+/-- **Bridge (all degrees).**  `polynomial_power_combinations` as regenerated from /repo's source text —
+    `sorted(((i, j) for j in range(degree + 1) for i in range(degree + 1 - j)), key=sum)`, a STABLE sort — equals the model's
+    explicit monomial order for every degree `N` (bucket form of a stable sort, Lemmas/Sort.lean); a negative degree is rejected. -/
+theorem gen_power_combinations_eq_model (N : Nat) : Gen.powerCombinations (N : Int) = .ok (powerCombinations N) := by
+  unfold Gen.powerCombinations
+  have h0 : ¬ ((N : Int) < 0) := by omega
+  have h1 : ((N : Int) + 1).toNat = N + 1 := by omega
+  have h2 : ∀ j : Nat, (((N : Int) + 1) - (j : Int)).toNat = N + 1 - j := by intro j; omega
+  simp only [h0, if_false, h1, h2]
+  exact congrArg Except.ok (sorted_enumeration_eq_powerCombinations N)
+
+theorem gen_power_combinations_negative_rejected (d : Int) (h : d < 0) : Gen.powerCombinations d = .error .valueError := by
+  unfold Gen.powerCombinations; simp [h]
 
 /-- Monomial table: `(i, j)` occurs iff `i + j ≤ N` … -/
 theorem power_combinations_mem (N i j : Nat) : (i, j) ∈ powerCombinations N ↔ i + j ≤ N := by
